@@ -180,7 +180,11 @@ fn worker_ref(job: &Value) -> Value {
     match r {
         Ok(b) => json!({"digest": bytes_digest(&b), "allocs": n, "ms": t.elapsed().as_secs_f64()*1e3,
                          "end_counter": write_fonts::verif_hooks::counter()}),
-        Err(e) => json!({"machinery": format!("reference compilation of item {item} failed: {e}")}),
+        // a value that does not compile in the reference conditions: recorded as the reference
+        // outcome "failed"; the supervisor keeps it out of the schedule/gap searches and reports a
+        // machinery error unless some other run of the value succeeds (then the OUTCOME depends on
+        // the perturbation, which is a violation)
+        Err(e) => json!({"digest": ["failed"], "allocs": 0, "ms": t.elapsed().as_secs_f64()*1e3, "failure": e}),
     }
 }
 
@@ -433,7 +437,13 @@ fn worker_hist(job: &Value, refs: &Value) -> Value {
                         Some(format!("bytes differ from reference (len {})", bytes.len()))
                     }
                 }
-                Err(e) => Some(e),
+                Err(e) => {
+                    if refs[it.to_string()] == json!(["failed"]) {
+                        None
+                    } else {
+                        Some(e)
+                    }
+                }
             };
             if let Some(what) = ok {
                 if mismatches.len() < 4 {
@@ -531,7 +541,8 @@ fn worker_seed(job: &Value) -> Value {
     let order = hash_order_probe();
     let d1 = compile_guarded(item).map(|b| bytes_digest(&b));
     let d2 = compile_guarded(item).map(|b| bytes_digest(&b));
-    json!({"first": d1.unwrap_or_else(|e| json!(e)), "second": d2.unwrap_or_else(|e| json!(e)), "order": order})
+    let failure = d1.as_ref().err().or(d2.as_ref().err()).cloned();
+    json!({"first": d1.unwrap_or_else(|_| json!(["failed"])), "second": d2.unwrap_or_else(|_| json!(["failed"])), "order": order, "failure": failure})
 }
 
 // =============================================================================================
@@ -693,12 +704,16 @@ fn body(run: &Run, replay: Option<&Value>) {
     let mut refs = serde_json::Map::new();
     let mut allocs = vec![0u64; n_items];
     let mut menu_info = vec![];
+    let mut failed_refs: Vec<(usize, String)> = vec![];
     for (i, r) in ref_res.into_iter().enumerate() {
         match r {
             Ok(v) => {
                 refs.insert(i.to_string(), v["digest"].clone());
                 allocs[i] = v["allocs"].as_u64().unwrap_or(0);
                 menu_info.push(json!({"item": items[i].name, "allocations": allocs[i], "bytes": v["digest"][0], "ms": v["ms"]}));
+                if v["digest"] == json!(["failed"]) {
+                    failed_refs.push((i, v["failure"].as_str().unwrap_or("").chars().take(300).collect::<String>()));
+                }
             }
             Err(e) => {
                 run.machinery_error(&format!("reference: {e}"));
@@ -727,7 +742,8 @@ fn body(run: &Run, replay: Option<&Value>) {
     }
     let mut jobs: Vec<Job> = vec![];
     // (1) schedules
-    let small: Vec<usize> = (0..n_items).filter(|i| items[*i].small).collect();
+    let ref_failed = |i: usize| failed_refs.iter().any(|(j, _)| *j == i);
+    let small: Vec<usize> = (0..n_items).filter(|i| items[*i].small && !ref_failed(*i)).collect();
     let max2 = run.tier.pick(8u64, 10u64);
     let mut sched_bounds = vec![];
     for (x, &a) in small.iter().enumerate() {
@@ -761,6 +777,9 @@ fn body(run: &Run, replay: Option<&Value>) {
     let bound2_max_n: u64 = run.tier.pick(120, 200);
     let mut gap_bounds = vec![];
     for i in 0..n_items {
+        if ref_failed(i) {
+            continue; // no reference bytes to search around; history and seed dimensions still run
+        }
         let bound = if allocs[i] <= bound2_max_n && !(items[i].heavy && run.tier == Tier::Quick) { 2 } else { 1 };
         let w_n = if allocs[i] > 24 || items[i].heavy { gap_workers } else { 1 };
         gap_bounds.push(json!({"item": items[i].name, "n": allocs[i], "max_nonzero_gaps": bound}));
@@ -934,6 +953,14 @@ fn body(run: &Run, replay: Option<&Value>) {
     run.extra("hash_orders_distinct_over_seeds", json!(distinct_orders.len()));
     run.extra("schedule_searches", json!(sched_report));
     run.extra("min_id_patterns_in_a_schedule_search", json!(min_patterns));
+    // a value that fails to compile under the reference conditions AND under every perturbation is a
+    // broken menu value (machinery); if it succeeded anywhere, violations were reported above
+    if !failed_refs.is_empty() && run.violations() == 0 {
+        run.machinery_error(&format!(
+            "menu values do not compile under the reference conditions: {:?}",
+            failed_refs.iter().map(|(i, e)| format!("{}: {}", items[*i].name, e)).collect::<Vec<_>>()
+        ));
+    }
     if min_patterns <= 1 && run.violations() == 0 {
         run.machinery_error("a schedule search saw only one id-interleaving pattern (vacuous: the hook did not yield)");
     }
@@ -949,10 +976,12 @@ fn body(run: &Run, replay: Option<&Value>) {
         }
         // ... the allocation-dense value alone (the counter is hit every few dozen nanoseconds) ...
         let dense = items.iter().position(|i| i.name == "multiple_subst_dense").expect("dense item");
-        free_jobs.push(json!({"k":"free","items":[dense],"threads":threads,"rounds":r_mix}));
-        // ... and different values side by side
         let mut mix = small.clone();
-        mix.push(dense);
+        if !ref_failed(dense) {
+            free_jobs.push(json!({"k":"free","items":[dense],"threads":threads,"rounds":r_mix}));
+            mix.push(dense);
+        }
+        // ... and different values side by side
         free_jobs.push(json!({"k":"free","items":mix,"threads":threads,"rounds":r_mix}));
         let mut compilations = 0u64;
         let mut mismatches = 0u64;
